@@ -58,6 +58,14 @@ def string_cases(prog, cr, rule="R18.4"):
             if o.kind == "raise":
                 if not st.exc_is_qerr(o.exc.name):
                     return (exc_sig(o), "contract: QuantityError (or a subclass)")
+                # whether a text is accepted does not depend on the value of a well-formed amount: no rejecting
+                # path may have tested the parsed number (its sign, zero-ness, size)
+                if parses and any(e[2] for e in parses):
+                    tested = st.norm(P).is_const() or any(("parsed", "part0") in diff.atoms() for diff, _op, _r in st.cmp_raw)
+                    if tested:
+                        return ("well-formed amount rejected depending on its value",
+                                f"{exc_sig(o)} on a path that tested the parsed amount "
+                                f"({'equal to ' + repr(st.norm(P)) if st.norm(P).is_const() else 'compared'})")
                 return None
             v = o.value
             if parse_fail:
@@ -123,6 +131,13 @@ def string_cases(prog, cr, rule="R18.4"):
             idiom = f"{e[2]}({', '.join(args)})"
             idioms.add(idiom)
             ok = (e[2] == "split" and args in (["' '", "1"], ["None", "1"])) or (e[2] == "partition" and args == ["' '"])
+            if e[2] == "regex":
+                # a pattern as reader: decided on what it does to every text form "<amount>[ <symbol>]" of the
+                # bounded corpus (qsa/regexmodel.py): amount and symbol come out as its two groups
+                prof = e[5]
+                ok = bool(prof["writer_ok"] and prof["amount_group"] and prof["symbol_group"])
+                if not ok:
+                    idiom += f" [text forms not decomposed, e.g. {prof['writer_bad'] or 'no amount/symbol group'}]"
             if not ok:
                 bad.add(idiom)
     if not idioms:
